@@ -436,6 +436,22 @@ func run(c *config) (*observed, error) {
 				o.Bcast = append(o.Bcast, b)
 			}
 			sort.Slice(o.Bcast, func(i, j int) bool { return o.Bcast[i].Lang < o.Bcast[j].Lang })
+			// what a host gets for a recipient of each language (the library's own helper)
+			for _, rl := range contactLangs {
+				rc, err := flows.NewContact(sa, flows.ContactUUID(uuids.NewV4()), flows.ContactID(9), "R", code(rl),
+					flows.ContactStatusActive, nil, time.Date(2020, 1, 1, 0, 0, 0, 0, time.UTC), nil, nil, nil, nil, nil, assets.PanicOnMissing)
+				if err != nil {
+					return nil, err
+				}
+				content, locale := ev.Translations.ForContact(env, rc, ev.BaseLanguage)
+				b := bcastTr{Lang: rl, Text: content.Text, Atts: []string{}, QRs: append([]string{}, content.QuickReplies...)}
+				for _, a := range content.Attachments {
+					b.Atts = append(b.Atts, string(a))
+				}
+				o.ForContact = append(o.ForContact, b)
+				ll, _ := locale.Split()
+				o.ForLocale = append(o.ForLocale, langIndex(string(ll)))
+			}
 		case *events.EmailSentEvent:
 			if o.Email != nil {
 				return nil, fmt.Errorf("two email_sent events")
